@@ -16,15 +16,24 @@ func (n *RawNode) Unicast(ctx context.Context, d CallData, opts ...CallOption) {
 	md := &ordering.Metadata{MessageID: n.mgr.getMsgID(), Method: d.Method}
 	req := request{ctx: ctx, msg: &Message{Metadata: md, Message: d.Message}, opts: o}
 
+	vEmit("CallStart", 0, md.MessageID, "kind", "ucast", "size", 1, "nosendwait", o.noSendWaiting, "ctx", ctx)
 	if o.noSendWaiting {
+		vGate("CallEnqWait", n.id, md.MessageID)
 		n.channel.enqueue(req, nil, false)
+		vEmit("CallEnq", n.id, md.MessageID)
+		vEmit("CallEnd", 0, md.MessageID, "out", "nowait")
 		return // don't wait for message to be sent
 	}
 
 	// newReply must be called before adding req to sendQ
 	replyChan := make(chan response, 1)
+	vGate("CallEnqWait", n.id, md.MessageID)
 	n.channel.enqueue(req, replyChan, false)
+	vEmit("CallEnq", n.id, md.MessageID)
+	vEmit("CallIssued", 0, md.MessageID, "expected", 1)
 	// channel sends an empty reply on replyChan when the message has been sent
 	// wait until the message has been sent
 	<-replyChan
+	vEmit("CallConfirm", 0, md.MessageID, "left", 0)
+	vEmit("CallEnd", 0, md.MessageID, "out", "sent")
 }
